@@ -39,7 +39,7 @@ type Step struct {
 // Hist is the input of the history facets.
 type Hist struct {
 	Pool  []spec.V `json:"pool"`
-	Sets  [][]int  `json:"sets,omitempty"` // initial ValueSets as indices into the element pool
+	Sets  [][]int  `json:"sets,omitempty"`  // initial ValueSets as indices into the element pool
 	Kinds []int    `json:"kinds,omitempty"` // element kind of each initial ValueSet: 0 numbers, 1 capsules without a hash key
 	Steps []Step   `json:"steps"`
 }
